@@ -28,6 +28,43 @@ type target struct {
 	Recv string `json:"recv"`
 	Func string `json:"func"`
 	Lean string `json:"lean"`
+	// Expression targets: instead of the whole function, ONE expression of it is translated - the condition of
+	// its Cond-th `if` (source order, 0-based, nested ones included) or the right-hand side of the Nth assignment
+	// (`=` or `:=`) to the variable Assign. Its free variables / selector chains are listed with their Go types
+	// in Vars (integer fields of a struct receiver are resolved as for whole functions).
+	// Constant targets: a package-level integer constant with a literal value, `const Name [type] = 123`.
+	Const  string            `json:"const"`
+	Type   string            `json:"type"`
+	Cond   *int              `json:"cond"`
+	Assign string            `json:"assign"`
+	// Call / Arg: the Arg-th argument of the Nth call of a function or method named Call;
+	// Ret: the Res-th result of the Nth `return` statement (set "ret": true).
+	Call string `json:"call"`
+	Arg  int    `json:"arg"`
+	Ret  bool   `json:"ret"`
+	Res  int    `json:"res"`
+	Nth    int               `json:"nth"`
+	Vars   map[string]string `json:"vars"`
+}
+
+// Go identifiers that are Lean keywords get the suffix `_v`.
+var leanReserved = map[string]bool{"from": true, "at": true, "end": true, "then": true, "do": true, "let": true, "have": true,
+	"show": true, "in": true, "with": true, "fun": true, "match": true, "open": true, "def": true, "theorem": true, "where": true,
+	"by": true, "using": true, "instance": true, "class": true, "structure": true, "variable": true, "namespace": true,
+	"section": true, "universe": true, "mut": true, "try": true, "catch": true, "finally": true, "macro": true, "syntax": true,
+	"local": true, "private": true, "protected": true, "calc": true, "exists": true, "forall": true, "Type": true, "Sort": true,
+	"Prop": true, "deriving": true, "extends": true, "export": true, "import": true, "set_option": true, "attribute": true}
+
+func selText(e ast.Expr) string {
+	switch x := e.(type) {
+	case *ast.Ident:
+		return x.Name
+	case *ast.SelectorExpr:
+		if p := selText(x.X); p != "" {
+			return p + "." + x.Sel.Name
+		}
+	}
+	return ""
 }
 
 var typeMap = map[string]string{
@@ -66,6 +103,25 @@ type tr struct {
 	structVars  map[string]string
 	structs     map[string]map[string]string // struct type -> field -> Go type name (same package)
 	fieldParams []string
+	freeVars    map[string]string // expression targets: identifier / selector chain -> Go type
+}
+
+func (t *tr) free(e ast.Expr) (string, string, bool) {
+	txt := selText(e)
+	gt, ok := t.freeVars[txt]
+	if !ok || txt == "" {
+		return "", "", false
+	}
+	lt := leanType(gt)
+	name := strings.ReplaceAll(txt, ".", "_")
+	if leanReserved[name] {
+		name += "_v"
+	}
+	if _, seen := t.env[name]; !seen {
+		t.env[name] = lt
+		t.fieldParams = append(t.fieldParams, fmt.Sprintf("(%s : %s)", name, lt))
+	}
+	return name, lt, true
 }
 
 func fail(format string, a ...any) {
@@ -107,6 +163,9 @@ func (t *tr) expr(e ast.Expr, want string) (string, string) {
 		if v, ok := t.consts[x.Name]; ok {
 			return t.expr(&ast.BasicLit{Kind: token.INT, Value: v}, want)
 		}
+		if n, lt, ok := t.free(x); ok {
+			return n, lt
+		}
 		ty, ok := t.env[x.Name]
 		if !ok {
 			fail("unknown identifier %s", x.Name)
@@ -121,6 +180,9 @@ func (t *tr) expr(e ast.Expr, want string) (string, string) {
 		}
 		return fmt.Sprintf("(%s : %s)", x.Value, want), want
 	case *ast.SelectorExpr:
+		if n, lt, ok := t.free(x); ok {
+			return n, lt
+		}
 		if id, ok := x.X.(*ast.Ident); ok {
 			if st, ok := t.structVars[id.Name]; ok {
 				ft, ok := t.structs[st][x.Sel.Name]
@@ -398,7 +460,9 @@ func main() {
 	}
 	leanOf := map[string]string{}
 	for _, tg := range targets {
-		leanOf[tg.Func] = tg.Lean
+		if tg.Cond == nil && tg.Assign == "" && tg.Const == "" && tg.Call == "" && !tg.Ret {
+			leanOf[tg.Func] = tg.Lean
+		}
 	}
 	var sb strings.Builder
 	sb.WriteString("/-\nGENERATED by /verif/gen from /repo's current source on every check run. Do not edit.\n")
@@ -425,6 +489,36 @@ func main() {
 		file, err := parser.ParseFile(fset, tg.File, src, 0)
 		if err != nil {
 			fail("%v", err)
+		}
+		if tg.Const != "" {
+			found := false
+			for _, d := range file.Decls {
+				gd, ok := d.(*ast.GenDecl)
+				if !ok || gd.Tok != token.CONST {
+					continue
+				}
+				for _, sp := range gd.Specs {
+					vs := sp.(*ast.ValueSpec)
+					if len(vs.Names) != 1 || vs.Names[0].Name != tg.Const || len(vs.Values) != 1 {
+						continue
+					}
+					lit, ok := vs.Values[0].(*ast.BasicLit)
+					if !ok || lit.Kind != token.INT {
+						fail("constant %s is not an integer literal", tg.Const)
+					}
+					gt := tg.Type
+					if vs.Type != nil {
+						gt = typeName(vs.Type)
+					}
+					sb.WriteString(fmt.Sprintf("/-- `%s` `const %s` (line %d). -/\n", tg.File, tg.Const, fset.Position(vs.Pos()).Line))
+					sb.WriteString(fmt.Sprintf("def %s : %s := %s\n\n", tg.Lean, leanType(gt), strings.ReplaceAll(lit.Value, "_", "")))
+					found = true
+				}
+			}
+			if !found {
+				fail("constant %s not found in %s", tg.Const, tg.File)
+			}
+			continue
 		}
 		var fd *ast.FuncDecl
 		for _, d := range file.Decls {
@@ -505,6 +599,98 @@ func main() {
 			}
 		}
 		var params []string
+		if tg.Cond != nil || tg.Assign != "" || tg.Call != "" || tg.Ret {
+			t.freeVars = tg.Vars
+			if fd.Recv != nil && len(fd.Recv.List[0].Names) == 1 {
+				rt := strings.TrimPrefix(typeName(fd.Recv.List[0].Type), "*")
+				if _, isStruct := t.structs[rt]; isStruct {
+					t.structVars[fd.Recv.List[0].Names[0].Name] = rt
+				}
+			}
+			var e ast.Expr
+			want, what := "", ""
+			if tg.Cond != nil {
+				k := 0
+				ast.Inspect(fd.Body, func(n ast.Node) bool {
+					if is, ok := n.(*ast.IfStmt); ok {
+						if k == *tg.Cond {
+							e = is.Cond
+						}
+						k++
+					}
+					return true
+				})
+				want, what = "Bool", fmt.Sprintf("condition of if #%d", *tg.Cond)
+			} else if tg.Call != "" {
+				k := 0
+				ast.Inspect(fd.Body, func(n ast.Node) bool {
+					if ce, ok := n.(*ast.CallExpr); ok {
+						name := ""
+						switch fn := ce.Fun.(type) {
+						case *ast.Ident:
+							name = fn.Name
+						case *ast.SelectorExpr:
+							name = fn.Sel.Name
+						}
+						if name == tg.Call && len(ce.Args) > tg.Arg {
+							if k == tg.Nth {
+								e = ce.Args[tg.Arg]
+							}
+							k++
+						}
+					}
+					return true
+				})
+				if gt, ok := tg.Vars["$result"]; ok {
+					want = leanType(gt)
+				}
+				what = fmt.Sprintf("argument %d of call #%d of %s", tg.Arg, tg.Nth, tg.Call)
+			} else if tg.Ret {
+				k := 0
+				ast.Inspect(fd.Body, func(n ast.Node) bool {
+					if _, isLit := n.(*ast.FuncLit); isLit {
+						return false
+					}
+					if rs, ok := n.(*ast.ReturnStmt); ok && len(rs.Results) > tg.Res {
+						if k == tg.Nth {
+							e = rs.Results[tg.Res]
+						}
+						k++
+					}
+					return true
+				})
+				if gt, ok := tg.Vars["$result"]; ok {
+					want = leanType(gt)
+				}
+				what = fmt.Sprintf("result %d of return #%d", tg.Res, tg.Nth)
+			} else {
+				k := 0
+				ast.Inspect(fd.Body, func(n ast.Node) bool {
+					if as, ok := n.(*ast.AssignStmt); ok && len(as.Lhs) == 1 && len(as.Rhs) == 1 && selText(as.Lhs[0]) == tg.Assign &&
+						(as.Tok == token.ASSIGN || as.Tok == token.DEFINE) {
+						if k == tg.Nth {
+							e = as.Rhs[0]
+						}
+						k++
+					}
+					return true
+				})
+				if gt, ok := tg.Vars[tg.Assign]; ok {
+					want = leanType(gt)
+				}
+				what = fmt.Sprintf("right-hand side of assignment #%d to %s", tg.Nth, tg.Assign)
+			}
+			if e == nil {
+				fail("%s not found in %s", what, tg.Func)
+			}
+			v, ty := t.expr(e, want)
+			start, end := fset.Position(e.Pos()), fset.Position(e.End())
+			sb.WriteString(fmt.Sprintf("/-- `%s` `%s%s`: %s (line %d, text `%s`). -/\n", tg.File,
+				map[bool]string{true: tg.Recv + ".", false: ""}[tg.Recv != ""], tg.Func, what, start.Line,
+				strings.Join(strings.Fields(string(src[start.Offset:end.Offset])), " ")))
+			sb.WriteString(fmt.Sprintf("def %s %s : %s :=\n  %s\n\n", tg.Lean, strings.Join(t.fieldParams, " "), ty, v))
+			continue
+		}
 		if fd.Recv != nil {
 			r := fd.Recv.List[0]
 			rt := typeName(r.Type)
